@@ -7,9 +7,9 @@ import (
 	"os"
 
 	"verifharness/internal/c06"
+	"verifharness/internal/c08"
 	"verifharness/internal/c10"
 	"verifharness/internal/c12"
-	"verifharness/internal/c08"
 	"verifharness/internal/c14"
 	"verifharness/internal/c15"
 	"verifharness/internal/c16"
